@@ -18,11 +18,14 @@ CONSTANTS Types,     \* event types used ("" is the unnamed event)
 
 VARIABLES cbs,       \* sequence of [kind |-> "type" | "all", typ |-> t, live |-> BOOLEAN]; index = callback number
           connected, \* Connect was called: events may flow
-          lastop,    \* the last operation (part of the view: every transition of the registry is exported)
+          lastop,    \* the last three operations (part of the view: every short path through the registry is
+                     \* exported - an implementation's maps may depend on the order in which a state was reached)
           hist       \* operations so far, each event with the callbacks that must be invoked
 vars == <<cbs, connected, lastop, hist>>
 
-Init == cbs = <<>> /\ connected = FALSE /\ lastop = <<"init">> /\ hist = <<>>
+Init == cbs = <<>> /\ connected = FALSE /\ lastop = <<>> /\ hist = <<>>
+
+Push(op) == lastop' = (IF Len(lastop) < 3 THEN lastop ELSE Tail(lastop)) \o <<op>>
 
 Live == {i \in 1..Len(cbs) : cbs[i].live}
 Receivers(t) == {i \in Live : cbs[i].kind = "all" \/ (cbs[i].kind = "type" /\ cbs[i].typ = t)}
@@ -32,7 +35,7 @@ Can == Len(hist) < MaxOps
 Subscribe(kind, t) ==
     /\ Can /\ Len(cbs) < MaxCbs
     /\ cbs' = Append(cbs, [kind |-> kind, typ |-> t, live |-> TRUE])
-    /\ lastop' = <<"sub", kind, t>>
+    /\ Push(<<"sub", kind, t>>)
     /\ hist' = Append(hist, [op |-> "sub", kind |-> kind, typ |-> t, cb |-> Len(cbs) + 1, recv |-> {}])
     /\ UNCHANGED connected
 
@@ -40,20 +43,20 @@ Subscribe(kind, t) ==
 Unsubscribe(i) ==
     /\ Can /\ i \in 1..Len(cbs)
     /\ cbs' = [cbs EXCEPT ![i].live = FALSE]
-    /\ lastop' = <<"unsub", i, cbs[i].live>>
+    /\ Push(<<"unsub", i, cbs[i].live>>)
     /\ hist' = Append(hist, [op |-> "unsub", kind |-> "", typ |-> "", cb |-> i, recv |-> {}])
     /\ UNCHANGED connected
 
 Connect ==
     /\ Can /\ ~connected
-    /\ connected' = TRUE /\ lastop' = <<"connect">>
+    /\ connected' = TRUE /\ Push(<<"connect">>)
     /\ hist' = Append(hist, [op |-> "connect", kind |-> "", typ |-> "", cb |-> 0, recv |-> {}])
     /\ UNCHANGED cbs
 
 \* an event of type t arrives: exactly Receivers(t) are invoked, each once
 Event(t) ==
     /\ Can /\ connected
-    /\ lastop' = <<"event", t>>
+    /\ Push(<<"event", t>>)
     /\ hist' = Append(hist, [op |-> "event", kind |-> "", typ |-> t, cb |-> 0, recv |-> Receivers(t)])
     /\ UNCHANGED <<cbs, connected>>
 
@@ -72,7 +75,7 @@ View == <<cbs, connected, lastop>>
 \* a removed callback is never invoked again, and removing one never affects another subscription
 RemovedStaysRemoved == [][\A i \in 1..Len(cbs) : ~cbs[i].live => ~cbs'[i].live]_vars
 OthersUnaffected ==
-    [][\A i \in 1..Len(cbs) : (\E j \in 1..Len(cbs) : j # i /\ lastop'[1] = "unsub" /\ lastop'[2] = j) => cbs'[i] = cbs[i]]_vars
+    [][\A i \in 1..Len(cbs) : (\E j \in 1..Len(cbs) : j # i /\ lastop' # <<>> /\ lastop'[Len(lastop')][1] = "unsub" /\ lastop'[Len(lastop')][2] = j) => cbs'[i] = cbs[i]]_vars
 \* every event reaches exactly the callbacks of its type and the subscribe-to-all ones
 Routing == \A k \in 1..Len(hist) : hist[k].op = "event" =>
               \A i \in hist[k].recv : cbs[i].kind = "all" \/ cbs[i].typ = hist[k].typ
